@@ -94,7 +94,7 @@ def gen_extras(rng, max_tick=200, grid=1, n=None, channels=(0,)):
         elif k < 0.7:
             out.append(pm(KEYSIG, ch, t, key=rng.randrange(15)))
         elif k < 0.9:
-            out.append(pm(CC, ch, t, vel=rng.randrange(128), ctl=rng.choice([1, 7, 64])))
+            out.append(pm(CC, ch, t, vel=rng.choice([0, 0, rng.randrange(128)]), ctl=rng.choice([0, 1, 7, 64])))      # the legal value 0 included
         else:
             out.append(pm(PC, ch, t, prog=rng.randrange(8)))
     return out
